@@ -45,6 +45,7 @@ def check(ctx):
     kernels_value(ctx)
     ffi(ctx, "C05-R5", ["_dist", "_dist_displacement", "_dist_mic", "_dist_t", "_dist_mic_t", "_dist_mic_displacement", "_find_closest_contact"])
     ctx.rule("C05-R6", "every geometry function with a `periodic` parameter forwards it to every package callee that has one")
+    flag_identity(ctx, "C05-R1", ["mdtraj/geometry/distance.py", "mdtraj/geometry/angle.py", "mdtraj/geometry/dihedral.py", "mdtraj/geometry/contact.py", "mdtraj/geometry/rdf.py", "mdtraj/geometry/hbond.py"], floor=10)
     periodic_plumbing(ctx, "C05-R6", floor=20)
 
 
@@ -385,3 +386,36 @@ def kernels_value(ctx):
                 t = re.sub(r"\s", "", sel[-1])
                 okc = t.startswith("(" + re.sub(r"\s", "", repr(d2))) and re.search(r"<=?\d", t) is not None
             ctx.decide(okc, "C05-R4", C.line(fn), GEO, kern, "a candidate replaces the current best when its squared length is not larger", "", "selection condition is %s" % (sel[-1][:120] if sel else None))
+
+
+# ---------------------------------------------------------------------------------------------------
+def flag_identity(ctx, rule, rels, name_filter=None, floor=1):
+    """A boolean option is tested by truthiness: `param is True` / `param is False` treats numpy.bool_(True), 1 or a non-empty mask differently from True."""
+    n_flags = 0
+    for rel in rels:
+        m = ctx.py.mod(rel)
+        seen = set()
+        for q, fn in sorted(m.functions.items()):
+            if id(fn) in seen:
+                continue
+            seen.add(id(fn))
+            if name_filter is not None and not name_filter(q):
+                continue
+            flags = set()
+            a = fn.args
+            pos = a.args[len(a.args) - len(a.defaults):] if a.defaults else []
+            for p_, d_ in list(zip(pos, a.defaults)) + [(p2, d2) for p2, d2 in zip(a.kwonlyargs, a.kw_defaults) if d2 is not None]:
+                if isinstance(d_, ast.Constant) and isinstance(d_.value, bool):
+                    flags.add(p_.arg)
+            if not flags:
+                continue
+            n_flags += len(flags)
+            bad = []
+            for n in walk_no_nested(fn):
+                if isinstance(n, ast.Compare) and isinstance(n.left, ast.Name) and n.left.id in flags and len(n.ops) == 1 and isinstance(n.ops[0], (ast.Is, ast.IsNot)) \
+                        and isinstance(n.comparators[0], ast.Constant) and isinstance(n.comparators[0].value, bool):
+                    bad.append(n)
+            ctx.decide(not bad, rule, bad[0] if bad else fn, rel, q, "boolean options %s are tested by truthiness" % sorted(flags), "",
+                       "`%s`: an option passed as numpy.bool_, 1 or another truthy value is silently treated as the opposite of True" % (src(bad[0]) if bad else ""))
+    if n_flags < floor:
+        raise AnalysisError("flag_identity: only %d boolean options found in %s" % (n_flags, rels))
